@@ -5883,6 +5883,10 @@ class CodegenCtx:
         elif immediate_done:
             transition_body.add("// immediately return DONE")
             transition_body.add(f"return {self.program_name.upper()}_DONE;")
+        # At the end of input there is no "next call" to report DONE from
+        elif from_end and transition.target in self.dfa.accepting_states:
+            transition_body.add("// reached an accept state at the end of input")
+            transition_body.add(f"return {self.program_name.upper()}_DONE;")
         # Normally, though, just generate a jump to the next jpto
         elif not from_end:
             if transition.target in self.dfa.states:
